@@ -29,7 +29,7 @@ DY_RATIOS = [Fraction(8), Fraction(4), Fraction(2), Fraction(16), Fraction(1), F
 def c08_scripts(rng, tier):
     """index-signal instance + one-hot instance, identical calls; dyadic phase grids (ratio 2^k/odd)."""
     S = []
-    n = {"quick": 6, "thorough": 80}[tier]
+    n = {"quick": 20, "thorough": 200}[tier]
     for _ in range(n):
         for deg in ["Septic", "Quintic", "Cubic", "Linear", "Nearest"]:
             for kind in ("FastFixedIn", "FastFixedOut"):
@@ -52,15 +52,34 @@ def c08_scripts(rng, tier):
                     for i in range(1 + len(hots)):
                         ops.append({"op": "process", "id": i})
                 S.append(ops)
-    # direct guard: monomials n^d of admissible degree are reproduced (numeric comparison f32 vs f64 paths
-    # is not meaningful here; the guard compares a polynomial-input instance against the instant-probe:
-    # handled through TwinPoly by linearity, nothing else to add)
+    # numeric guard (TwinNear): polynomials of admissible degree are reproduced to rounding, at arbitrary
+    # ratios and chunkings, f32 and f64. Instance 0 (index signal) gives the instants, instance 1 is fed
+    # p(n); the driver measures |out - p(instant)| in units of eps*max|p| (measured on the unchanged
+    # tree: <= 12 units; bound 128).
+    degs = {"Septic": 7, "Quintic": 5, "Cubic": 3, "Linear": 1}
+    for _ in range({"quick": 25, "thorough": 300}[tier]):
+        for deg, d in degs.items():
+            for kind in ("FastFixedIn", "FastFixedOut"):
+                r = rng.choice(gen.RATIOS)
+                chunk = rng.choice([16, 64, 100, 256])
+                base = {"op": "new", "kind": kind, "ch": 1, "r": gen.rj(r), "maxrel": gen.rj(Fraction(2)),
+                        "degree": deg, "chunk": chunk, "seed": 3}
+                dd = rng.randrange(0, d + 1)
+                coef = [rng.uniform(-1, 1) / (50.0 ** k) for k in range(dd + 1)]
+                a = dict(base, signal="index", T=64, id=0)
+                b = dict(base, signal="poly", coef=coef, T=rng.choice([32, 64]), id=1)
+                ops = [a, b]
+                per_in = chunk if kind == "FastFixedIn" else max(1, int(chunk / float(r)))
+                for _c in range(min(60, 400 // per_in + 3)):
+                    ops += [{"op": "process", "id": 0}, {"op": "process", "id": 1},
+                            {"op": "cmp_poly", "a": 0, "b": 1, "bound": 128}]
+                S.append(ops)
     return S
 
 
 def c15_scripts(rng, tier):
     S = []
-    n = {"quick": 8, "thorough": 100}[tier]
+    n = {"quick": 40, "thorough": 400}[tier]
     # ---- one-hot probes of the public kernels
     for _ in range(n):
         for T in (32, 64):
